@@ -385,6 +385,29 @@ func genC06(out, tier string, rng *rand.Rand) {
 			}
 		}
 	}
+	// a write takes effect as its mutation list and nothing else: CheckAndMutateRow whose predicate
+	// REWRITES cells while testing them (strip_value, apply_label, interleave duplicates), with every
+	// cell passing, with empty and non-empty branches
+	for _, en := range engines() {
+		qs := &Filter{Kind: "qualregex", Rx: &Regex{Re: &Re{Kind: "lit", B: 's'}}}
+		preds := []*Filter{
+			{Kind: "strip"},
+			{Kind: "chain", Subs: []*Filter{qs, {Kind: "strip"}}},
+			{Kind: "label", Label: "seen"},
+			{Kind: "interleave", Subs: []*Filter{{Kind: "pass", Flag: true}, {Kind: "strip"}}},
+			{Kind: "condition", P: &Filter{Kind: "strip"}, T: &Filter{Kind: "label", Label: "t"}},
+		}
+		for _, p := range preds {
+			for _, tm := range [][]Mutation{nil, {{Kind: "set", Fam: "cf2", Q: []byte("won"), Ts: 1000, V: []byte("1")}}} {
+				prog := append(smallSetup(),
+					Call{Req: Req{Kind: "cam", Table: concTable, Key: []byte("r1"), Pred: p, TM: tm, FM: []Mutation{{Kind: "set", Fam: "cf2", Q: []byte("lost"), Ts: 1000, V: []byte("0")}}}, Now: 7000000},
+					Call{Req: Req{Kind: "read", Table: concTable}, Now: 8000000},
+					Call{Req: Req{Kind: "cam", Table: concTable, Key: []byte("r1"), Pred: &Filter{Kind: "valregex", Rx: &Regex{Re: &Re{Kind: "lit", B: 'x'}}}, TM: []Mutation{{Kind: "set", Fam: "cf2", Q: []byte("still-x"), Ts: 1000, V: []byte("1")}}}, Now: 7000000},
+					Call{Req: Req{Kind: "read", Table: concTable}, Now: 8000000})
+				tasks = append(tasks, Task{en, "atomic", prog})
+			}
+		}
+	}
 	// sequential cases go through the sequential checker: separate shard stream
 	type res struct {
 		c    Case
